@@ -534,4 +534,410 @@ theorem attemptNext_why (cfg : Cfg) (b b' : Batch) (k : Nat) (o : Outcome) (why 
     · simp [attemptNext, hk] at h; obtain ⟨rfl, rfl⟩ := h; simp; omega
   · simp [attemptNext] at h; obtain ⟨rfl, rfl⟩ := h; simp
 
+/-! ### after CloseReturn the writer stays quiescent -/
+
+theorem countP_map_le {α : Type} (l : List α) (g : α → α) (p : α → Bool) (h : ∀ x ∈ l, p (g x) = true → p x = true) :
+    (l.map g).countP p ≤ l.countP p := by
+  induction l with
+  | nil => simp
+  | cons x xs ih =>
+    have ih' := ih (fun y hy => h y (by simp [hy]))
+    have hx := h x (by simp)
+    simp only [List.map_cons, List.countP_cons]
+    by_cases hg : p (g x) = true
+    · have := hx hg; simp only [hg, this, if_true]; omega
+    · by_cases hpx : p x = true
+      · simp only [hg, hpx, if_true, if_false, Bool.false_eq_true, reduceIte]; omega
+      · simp only [hg, hpx, if_false, Bool.false_eq_true, reduceIte]; omega
+
+theorem wg_updCalls_le (s : State) (c : Nat) (q : Call → Bool) (f : Call → Call)
+    (h : ∀ x, (f x).holdsGroup = true → x.holdsGroup = true) : (updCalls s c q f).wg ≤ s.wg := by
+  have : ((s.calls.map fun x => if (x.id = c && q x) = true then f x else x).countP Call.holdsGroup) ≤ s.calls.countP Call.holdsGroup := by
+    apply countP_map_le
+    intro x _ hx
+    split at hx
+    · exact h x hx
+    · exact hx
+  simp only [State.wg, updCalls]; omega
+
+theorem wg_updPWs_le (s : State) (i : Nat) (q : PW → Bool) (f : PW → PW)
+    (h : ∀ x, q x = true → (f x).live = true → x.live = true) : (updPWs s i q f).wg ≤ s.wg := by
+  have : ((s.writers.map fun x => if (x.pid = i && q x) = true then f x else x).countP PW.live) ≤ s.writers.countP PW.live := by
+    apply countP_map_le
+    intro x _ hx
+    split at hx
+    · rename_i hq
+      simp only [Bool.and_eq_true] at hq
+      exact h x hq.2 hx
+    · exact hx
+  simp only [State.wg, updPWs]; omega
+
+/-- once the writer is marked closed (repaired protocol) no step increases the WaitGroup -/
+theorem wg_nonincreasing (cfg : Cfg) (hfix : cfg.fixed = true) (s s' : State) (e : Event) (hcl : s.closed = true)
+    (h : step cfg s e = some s') : s'.wg ≤ s.wg := by
+  cases e with
+  | callBegin c ms mf =>
+    simp only [step] at h
+    split at h
+    · simp at h
+    · injection h with h; subst h
+      simp [State.wg, List.countP_append, Call.holdsGroup]
+  | ctxCancel c =>
+    simp only [step, Option.ite_none_right_eq_some, Option.some.injEq] at h
+    obtain ⟨_, rfl⟩ := h
+    exact wg_updCalls_le _ _ _ _ (fun x hx => by simpa [Call.holdsGroup] using hx)
+  | closeBegin =>
+    simp only [step, Option.ite_none_right_eq_some, Option.some.injEq] at h
+    obtain ⟨_, rfl⟩ := h; exact Nat.le_refl _
+  | enter c =>
+    simp only [step, Option.ite_none_right_eq_some, Option.some.injEq] at h
+    obtain ⟨_, rfl⟩ := h
+    exact wg_updCalls_le _ _ _ _ (fun x hx => by simp [Call.holdsGroup, hcl] at hx)
+  | metaReq c =>
+    simp only [step, Option.ite_none_right_eq_some, Option.some.injEq] at h
+    obtain ⟨_, rfl⟩ := h
+    exact wg_updCalls_le _ _ _ _ (fun x hx => by simpa [Call.holdsGroup] using hx)
+  | metaRel c =>
+    simp only [step, Option.ite_none_right_eq_some, Option.some.injEq] at h
+    obtain ⟨_, rfl⟩ := h
+    exact wg_updCalls_le _ _ _ _ (fun x hx => by simpa [Call.holdsGroup] using hx)
+  | early c r =>
+    simp only [step, Option.ite_none_right_eq_some, Option.some.injEq] at h
+    obtain ⟨_, rfl⟩ := h
+    exact wg_updCalls_le _ _ _ _ (fun x hx => by simp [Call.holdsGroup] at hx)
+  | leave c r =>
+    simp only [step, Option.ite_none_right_eq_some, Option.some.injEq] at h
+    obtain ⟨_, rfl⟩ := h
+    exact wg_updCalls_le _ _ _ _ (fun x hx => by simp [Call.holdsGroup] at hx)
+  | ret c =>
+    simp only [step, Option.ite_none_right_eq_some, Option.some.injEq] at h
+    obtain ⟨_, rfl⟩ := h
+    apply wg_updCalls_le
+    intro x hx
+    simp only [Call.doReturn] at hx
+    cases hp : x.phase <;> simp [hp, Call.holdsGroup] at hx ⊢
+  | batch c =>
+    simp only [step] at h
+    split at h
+    · simp at h
+    · simp only [hfix, hcl, Bool.and_self, if_true] at h
+      injection h with h; subst h
+      exact wg_updCalls_le _ _ _ _ (fun x hx => by simp [Call.holdsGroup] at hx)
+  | timer b =>
+    simp only [step, Option.ite_none_right_eq_some, Option.some.injEq] at h
+    obtain ⟨hb, rfl⟩ := h
+    have hmem : b ∈ s.awaiters := by simpa using hb
+    have h1 := List.length_erase_of_mem hmem
+    have h2 : (s.writers.map (timerPW b)).countP PW.live ≤ s.writers.countP PW.live := by
+      apply countP_map_le
+      intro p _ hp
+      simp only [timerPW] at hp
+      cases hc : p.curr with
+      | none => simpa [hc] using hp
+      | some cb =>
+        simp only [hc] at hp
+        split at hp
+        · simp only [putBatch] at hp; split at hp <;> simpa [PW.live] using hp
+        · exact hp
+    simp only [State.wg]; omega
+  | get i =>
+    simp only [step] at h
+    split at h
+    · injection h with h; subst h
+      apply wg_updPWs_le
+      intro x hq _
+      simp only [Bool.and_eq_true, decide_eq_true_eq] at hq
+      simp [PW.live, hq.1]
+    · split at h
+      · injection h with h; subst h
+        exact wg_updPWs_le _ _ _ _ (fun x _ hx => by simp [PW.live] at hx)
+      · simp at h
+  | attempt i o =>
+    simp only [step, Option.ite_none_right_eq_some, Option.some.injEq] at h
+    obtain ⟨_, rfl⟩ := h
+    apply wg_updPWs_le
+    intro x _ hx
+    cases hs : x.sender <;> simp [hs, PW.live] at hx ⊢
+  | complete i =>
+    simp only [step] at h
+    split at h
+    · split at h
+      · rename_i b why _
+        injection h with h; subst h
+        have := wg_updPWs_le s i (fun q => decide (q.sender = Sender.completing b why)) (fun q => { q with sender := .idle })
+          (fun x hq _ => by simp only [decide_eq_true_eq] at hq; simp [PW.live, hq])
+        simpa [State.wg, updPWs] using this
+      · simp at h
+    · simp at h
+  | closeMark =>
+    simp only [step, Option.ite_none_right_eq_some, Option.some.injEq] at h
+    obtain ⟨_, rfl⟩ := h
+    have : (s.writers.map closePW).countP PW.live ≤ s.writers.countP PW.live := by
+      apply countP_map_le
+      intro p _ hp
+      simp only [closePW] at hp
+      cases hc : p.curr <;> simpa [hc, PW.live] using hp
+    simp only [State.wg]; omega
+  | closeReturn =>
+    simp only [step, Option.ite_none_right_eq_some, Option.some.injEq] at h
+    obtain ⟨_, rfl⟩ := h; exact Nat.le_refl _
+
+
+/-- only the three Close events move the Close phase -/
+theorem close_phase_moves (cfg : Cfg) (s s' : State) (e : Event) (hs : step cfg s e = some s') :
+    s'.close = s.close ∨ e = .closeBegin ∨ e = .closeMark ∨ e = .closeReturn := by
+  cases e with
+  | closeBegin => exact Or.inr (Or.inl rfl)
+  | closeMark => exact Or.inr (Or.inr (Or.inl rfl))
+  | closeReturn => exact Or.inr (Or.inr (Or.inr rfl))
+  | callBegin c ms mf =>
+    simp only [step] at hs
+    split at hs
+    · simp at hs
+    · injection hs with h; subst h; exact Or.inl rfl
+  | batch c =>
+    simp only [step] at hs
+    split at hs
+    · simp at hs
+    · split at hs
+      · injection hs with h; subst h; exact Or.inl rfl
+      · injection hs with h; subst h
+        simp only [updCalls]
+        exact Or.inl (foldl_addOne_flags cfg _ _).2.1
+  | get i =>
+    simp only [step] at hs
+    split at hs
+    · injection hs with h; subst h; exact Or.inl rfl
+    · split at hs
+      · injection hs with h; subst h; exact Or.inl rfl
+      · simp at hs
+  | complete i =>
+    simp only [step] at hs
+    split at hs
+    · split at hs
+      · injection hs with h; subst h; exact Or.inl rfl
+      · simp at hs
+    · simp at hs
+  | ctxCancel c | enter c | metaReq c | metaRel c | ret c | timer c =>
+    simp only [step, Option.ite_none_right_eq_some, Option.some.injEq] at hs
+    obtain ⟨_, rfl⟩ := hs; exact Or.inl rfl
+  | early c r | leave c r | attempt c r =>
+    simp only [step, Option.ite_none_right_eq_some, Option.some.injEq] at hs
+    obtain ⟨_, rfl⟩ := hs; exact Or.inl rfl
+
+/-- when Close has returned the WaitGroup is 0 — and stays 0 -/
+theorem reachable_returned_quiescent (cfg : Cfg) (hfix : cfg.fixed = true) :
+    ∀ s, Reachable cfg s → s.close = 3 → s.wg = 0 := by
+  have key : ∀ s, Reachable cfg s → ((2 ≤ s.close ↔ s.closed = true) ∧ (s.close = 3 → s.wg = 0)) := by
+    apply reachable_induction cfg (fun s => (2 ≤ s.close ↔ s.closed = true) ∧ (s.close = 3 → s.wg = 0))
+    · simp [State.init]
+    · intro s e s' ⟨ih1, ih2⟩ hs
+      have h1 : (2 ≤ s'.close ↔ s'.closed = true) := by
+        rcases step_close_flags cfg s s' e hs with ⟨a, b⟩ | ⟨a0, a, b⟩ | ⟨a, b⟩ | ⟨a0, a, b⟩
+        · rw [a, b]; exact ih1
+        · rw [a, b, ← ih1, a0]; omega
+        · rw [a, b]; simp
+        · rw [a, b, ← ih1, a0]; omega
+      refine ⟨h1, ?_⟩
+      intro h3
+      rcases close_phase_moves cfg s s' e hs with hsame | rfl | rfl | rfl
+      · have hc3 : s.close = 3 := by omega
+        have hcl : s.closed = true := ih1.mp (by omega)
+        have := wg_nonincreasing cfg hfix s s' e hcl hs
+        have := ih2 hc3
+        omega
+      · simp only [step, Option.ite_none_right_eq_some, Option.some.injEq] at hs
+        obtain ⟨_, rfl⟩ := hs; simp at h3
+      · simp only [step, Option.ite_none_right_eq_some, Option.some.injEq] at hs
+        obtain ⟨_, rfl⟩ := hs; simp at h3
+      · simp only [step, Option.ite_none_right_eq_some, Option.some.injEq, Bool.and_eq_true, decide_eq_true_eq] at hs
+        obtain ⟨⟨_, h0⟩, rfl⟩ := hs
+        simpa [State.wg] using h0
+  intro s hr
+  exact (key s hr).2
+
+/-! ### calls invoked after the closed mark -/
+
+def BornOk (x : Call) : Prop :=
+  x.bornClosed = true → (x.phase = .invoked ∨ x.phase = .left .closedPipe ∨ x.phase = .returned .closedPipe)
+
+structure BornInv (s : State) : Prop where
+  closed : ∀ x ∈ s.calls, x.bornClosed = true → s.closed = true
+  phase : ∀ x ∈ s.calls, BornOk x
+
+theorem closed_mono (cfg : Cfg) (s s' : State) (e : Event) (hs : step cfg s e = some s') (hc : s.closed = true) :
+    s'.closed = true := by
+  rcases step_close_flags cfg s s' e hs with ⟨_, b⟩ | ⟨_, _, b⟩ | ⟨_, b⟩ | ⟨_, _, b⟩
+  · rw [b]; exact hc
+  · rw [b]; exact hc
+  · exact b
+  · rw [b]; exact hc
+
+theorem born_updCalls (s : State) (c : Nat) (q : Call → Bool) (f : Call → Call)
+    (hf : ∀ x, q x = true → (f x).bornClosed = x.bornClosed ∧ (BornOk x → s.closed = true ∨ x.bornClosed = false → BornOk (f x)))
+    (hi : BornInv s) : ∀ y ∈ (updCalls s c q f).calls, BornOk y ∧ (y.bornClosed = true → s.closed = true) := by
+  intro y hy
+  simp only [updCalls, List.mem_map] at hy
+  obtain ⟨x, hx, rfl⟩ := hy
+  by_cases hq : (decide (x.id = c) && q x) = true
+  · simp only [hq, if_true]
+    simp only [Bool.and_eq_true] at hq
+    obtain ⟨hb, hok⟩ := hf x hq.2
+    refine ⟨?_, fun h => hi.closed x hx (by rw [← hb]; exact h)⟩
+    apply hok (hi.phase x hx)
+    cases hbc : x.bornClosed with
+    | false => exact Or.inr rfl
+    | true => exact Or.inl (hi.closed x hx hbc)
+  · simp only [hq]
+    exact ⟨hi.phase x hx, hi.closed x hx⟩
+
+theorem bornOk_not_active (x : Call) (h : BornOk x) (hp : x.phase = .entered ∨ x.phase = .waiting) : x.bornClosed = false := by
+  cases hb : x.bornClosed with
+  | false => rfl
+  | true =>
+    rcases h hb with h1 | h1 | h1 <;> rcases hp with h2 | h2 <;> rw [h1] at h2 <;> cases h2
+
+theorem born_init : BornInv State.init := ⟨by simp [State.init], by simp [State.init]⟩
+
+/-- calls unchanged, closed flag only grows -/
+theorem born_same_calls (s s' : State) (hc : s'.calls = s.calls) (hm : s.closed = true → s'.closed = true)
+    (hi : BornInv s) : BornInv s' :=
+  ⟨fun x hx hb => hm (hi.closed x (hc ▸ hx) hb), fun x hx => hi.phase x (hc ▸ hx)⟩
+
+theorem born_of_upd (s : State) (c : Nat) (q : Call → Bool) (f : Call → Call)
+    (hf : ∀ x, q x = true → (f x).bornClosed = x.bornClosed ∧ (BornOk x → s.closed = true ∨ x.bornClosed = false → BornOk (f x)))
+    (hi : BornInv s) : BornInv (updCalls s c q f) :=
+  ⟨fun y hy hb => (born_updCalls s c q f hf hi y hy).2 hb, fun y hy => (born_updCalls s c q f hf hi y hy).1⟩
+
+theorem born_step (cfg : Cfg) (s s' : State) (e : Event) (hi : BornInv s) (h : step cfg s e = some s') : BornInv s' := by
+  have keepPhase : ∀ (x : Call) (y : Call), y.bornClosed = x.bornClosed → y.phase = x.phase →
+      (y.bornClosed = x.bornClosed ∧ (BornOk x → s.closed = true ∨ x.bornClosed = false → BornOk y)) := by
+    intro x y hb hp
+    refine ⟨hb, fun hok _ => ?_⟩
+    intro hby; rw [hp]; exact hok (hb ▸ hby)
+  have activeCase : ∀ (x y : Call), (x.phase = .entered ∨ x.phase = .waiting) → y.bornClosed = x.bornClosed →
+      (y.bornClosed = x.bornClosed ∧ (BornOk x → s.closed = true ∨ x.bornClosed = false → BornOk y)) := by
+    intro x y hp hb
+    refine ⟨hb, fun hok _ hby => ?_⟩
+    have := bornOk_not_active x hok hp
+    rw [hb, this] at hby; cases hby
+  cases e with
+  | callBegin c ms mf =>
+    simp only [step] at h
+    split at h
+    · simp at h
+    · injection h with h; subst h
+      constructor
+      · intro x hx hb
+        rcases List.mem_append.mp hx with hx | hx
+        · exact hi.closed x hx hb
+        · simp only [List.mem_singleton] at hx; subst hx; exact hb
+      · intro x hx
+        rcases List.mem_append.mp hx with hx | hx
+        · exact hi.phase x hx
+        · simp only [List.mem_singleton] at hx; subst hx; intro _; exact Or.inl rfl
+  | ctxCancel c =>
+    simp only [step, Option.ite_none_right_eq_some, Option.some.injEq] at h
+    obtain ⟨_, rfl⟩ := h
+    exact born_of_upd s c _ _ (fun x _ => keepPhase x _ rfl rfl) hi
+  | metaReq c =>
+    simp only [step, Option.ite_none_right_eq_some, Option.some.injEq] at h
+    obtain ⟨_, rfl⟩ := h
+    exact born_of_upd s c _ _ (fun x _ => keepPhase x _ rfl rfl) hi
+  | metaRel c =>
+    simp only [step, Option.ite_none_right_eq_some, Option.some.injEq] at h
+    obtain ⟨_, rfl⟩ := h
+    exact born_of_upd s c _ _ (fun x _ => keepPhase x _ rfl rfl) hi
+  | enter c =>
+    simp only [step, Option.ite_none_right_eq_some, Option.some.injEq] at h
+    obtain ⟨_, rfl⟩ := h
+    apply born_of_upd s c _ _ _ hi
+    intro x _
+    refine ⟨rfl, fun _ hor hby => ?_⟩
+    rcases hor with hcl | hnb
+    · simp [hcl]
+    · simp only at hby; rw [hnb] at hby; cases hby
+  | early c r =>
+    simp only [step, Option.ite_none_right_eq_some, Option.some.injEq] at h
+    obtain ⟨_, rfl⟩ := h
+    apply born_of_upd s c _ _ _ hi
+    intro x hq
+    simp only [decide_eq_true_eq] at hq
+    exact activeCase x _ (Or.inl hq) rfl
+  | leave c r =>
+    simp only [step, Option.ite_none_right_eq_some, Option.some.injEq] at h
+    obtain ⟨_, rfl⟩ := h
+    apply born_of_upd s c _ _ _ hi
+    intro x hq
+    simp only [decide_eq_true_eq] at hq
+    exact activeCase x _ (Or.inr hq) rfl
+  | ret c =>
+    simp only [step, Option.ite_none_right_eq_some, Option.some.injEq] at h
+    obtain ⟨_, rfl⟩ := h
+    apply born_of_upd s c _ _ _ hi
+    intro x _
+    simp only [Call.doReturn]
+    cases hp : x.phase with
+    | left r =>
+      refine ⟨rfl, fun hok _ hby => ?_⟩
+      rcases hok hby with h1 | h1 | h1 <;> rw [hp] at h1 <;> simp at h1
+      subst h1; exact Or.inr (Or.inr rfl)
+    | _ => exact keepPhase x _ rfl rfl
+  | batch c =>
+    simp only [step] at h
+    split at h
+    · simp at h
+    · rename_i x hfind
+      have hxp := List.find?_some hfind
+      simp only [Bool.and_eq_true, decide_eq_true_eq] at hxp
+      split at h
+      · injection h with h; subst h
+        apply born_of_upd s c _ _ _ hi
+        intro y hq
+        simp only [decide_eq_true_eq] at hq
+        exact activeCase y _ (Or.inl hq) rfl
+      · injection h with h; subst h
+        have hfl := foldl_addOne_flags cfg x.msgs s
+        have hi1 : BornInv (x.msgs.foldl (addOne cfg) s) :=
+          born_same_calls s _ hfl.2.2.1 (fun hc => by rw [hfl.1]; exact hc) hi
+        apply born_of_upd _ c _ _ _ hi1
+        intro y hq
+        simp only [beq_iff_eq] at hq
+        subst hq
+        exact ⟨rfl, fun hok _ hby => by
+          have := bornOk_not_active y hok (Or.inl hxp.1.1.2)
+          simp only at hby; rw [this] at hby; cases hby⟩
+  | closeBegin =>
+    simp only [step, Option.ite_none_right_eq_some, Option.some.injEq] at h
+    obtain ⟨_, rfl⟩ := h; exact born_same_calls s _ rfl (fun hc => hc) hi
+  | closeMark =>
+    simp only [step, Option.ite_none_right_eq_some, Option.some.injEq] at h
+    obtain ⟨_, rfl⟩ := h; exact born_same_calls s _ rfl (fun _ => rfl) hi
+  | closeReturn =>
+    simp only [step, Option.ite_none_right_eq_some, Option.some.injEq] at h
+    obtain ⟨_, rfl⟩ := h; exact born_same_calls s _ rfl (fun hc => hc) hi
+  | timer b =>
+    simp only [step, Option.ite_none_right_eq_some, Option.some.injEq] at h
+    obtain ⟨_, rfl⟩ := h; exact born_same_calls s _ rfl (fun hc => hc) hi
+  | get i =>
+    simp only [step] at h
+    split at h
+    · injection h with h; subst h; exact born_same_calls s _ rfl (fun hc => hc) hi
+    · split at h
+      · injection h with h; subst h; exact born_same_calls s _ rfl (fun hc => hc) hi
+      · simp at h
+  | attempt i o =>
+    simp only [step, Option.ite_none_right_eq_some, Option.some.injEq] at h
+    obtain ⟨_, rfl⟩ := h; exact born_same_calls s _ rfl (fun hc => hc) hi
+  | complete i =>
+    simp only [step] at h
+    split at h
+    · split at h
+      · injection h with h; subst h; exact born_same_calls s _ rfl (fun hc => hc) hi
+      · simp at h
+    · simp at h
+
+theorem reachable_born (cfg : Cfg) : ∀ s, Reachable cfg s → BornInv s :=
+  reachable_induction cfg BornInv born_init (fun s e s' hi hs => born_step cfg s s' e hi hs)
+
 end KV.WriterClose
